@@ -325,13 +325,18 @@ func (e *mgEnv) inject(ctx context.Context, a mgAttempt) {
 			e.callRemove(a.readd)
 		}
 	}()
-	if a.injAct == 'k' {
-		<-done
-		return
-	}
+	// (Manager.Remove holds the manager's lock while it waits for the monitor goroutine: a collaborator
+	// that waited unconditionally for an API call needing that lock would close a cycle of the harness's
+	// own making when a Remove of an earlier racy injection is still in flight)
 	select {
 	case <-done:
 	case <-ctx.Done():
+		// Reconnect cancels this very context before it returns: give the call a moment to finish
+		// (and record its result) before the attempt goes on
+		select {
+		case <-done:
+		case <-time.After(50 * time.Millisecond):
+		}
 	}
 }
 
